@@ -154,6 +154,7 @@ def strategy_(draw, tier):
     size = spec["capacity"] * 512
     spec["requests"] = draw(strat.requests(size, unit_bytes(spec), count=6, points=request_points(spec), whole_limit=4 << 20))
     spec["via_minimal"] = draw(strat.minimal_handle())
+    spec["fault"] = draw(strat.fault())
     spec["via_gzip"] = draw(st.integers(0, 3 if spec["kind"] == "flat" else 11)) == 0
     if spec.get("descriptor") and draw(st.integers(0, 1)) == 0:
         # the embedded descriptor fills its area to the last byte (no NUL behind it); the header attributes may come in any order
@@ -228,7 +229,7 @@ def check(spec) -> Outcome:
         return out
     if v.size != size:
         out.fail(f"mismatch|{tag}-size", f"size {v.size} != {size}")
-    check_reads(out, v, lay, spec["requests"], tag)
+    check_reads(out, v, lay, spec["requests"], tag, fault=spec.get("fault"), fault_fh=fh)
     from hv.core import also_minimal
 
     also_minimal(out, spec, fh, VMDK, lay, spec["requests"], tag)
